@@ -422,6 +422,10 @@ class Circuit:
                 Line(self, (node_map[l.driver], l.driver_pin), (node_map[l.reader], l.reader_pin))
         for inn, ll in zip(impl_in_nodes, node_in_lines):  # connect inputs
             if ll is None: continue
+            if len(inn.outs) == 0:  # input is ignored by the implementation: its line has no reader any more
+                ll.reader = None
+                ll.remove()
+                continue
             if len(inn.outs) == 1:
                 l = inn.outs[0]
                 ll.reader = node_map[l.reader]
